@@ -358,4 +358,133 @@ def specRecs {S P Row} (c : Comps S P Row) (seed : Nat) (ts : List Triple) : Lis
 def resultS {S P Row} (c : Comps S P Row) (seed : Nat) (ts : List Triple) : Result P Row :=
   result (specRecs c seed ts)
 
+
+/-! ## phase 2: process-level state
+
+State that outlives an evaluation inside one OS process (coba: `CobaContext.learning_info`, class- or
+module-level caches, anything memoised on a shared evaluator object) is an explicit component `σ`
+threaded through all evaluations of one process.  In-process there is one `σ` for the whole run;
+a worker has its own `σ`, which lives as long as the worker does: over all chunks it pulls until it
+is retired after `maxchunksperchild` chunks.  Learner objects that cannot be deep-copied are modelled
+too (`copyable`): `deepcopy` then raises inside the per-task `try`. -/
+
+structure CompsP (G S P Row : Type) where
+  envParams : Nat → Except Err P
+  lrnParams : Nat → Except Err P
+  valParams : Nat → Except Err P
+  chunkKey  : Nat → Option Nat
+  init      : Nat → S
+  valSeed   : Nat → Option Nat
+  copyable  : Nat → Bool                 -- can `deepcopy` copy this learner object?
+  σ0        : G                          -- the state of a freshly started process
+  evalP     : G → Nat → Nat → S → Nat → (Except Err (List Row) × S) × G   -- process-state evaluator env learner-state seed
+
+/-- the isolation hypothesis: started in a clean process state an evaluation gives what it gives in
+a fresh process, and it leaves the process state clean (`Clean := fun _ => True` is the special case
+"the outcome never depends on σ") -/
+structure ProcessLocalClean {G S P Row} (cp : CompsP G S P Row) (Clean : G → Prop) : Prop where
+  fresh : Clean cp.σ0
+  same  : ∀ σ, Clean σ → ∀ v e s seed, (cp.evalP σ v e s seed).1 = (cp.evalP cp.σ0 v e s seed).1
+  stays : ∀ σ, Clean σ → ∀ v e s seed, Clean (cp.evalP σ v e s seed).2
+
+/-- a shared learner object that cannot be copied: no pristine copy exists -/
+def CompsP.blocked {G S P Row} (cp : CompsP G S P Row) (ts : List Triple) (l : Nat) : Bool :=
+  decide (lrnCount ts l > 1) && !cp.copyable l
+
+/-- the σ-free components the spec is stated with: every evaluation as it happens in a fresh process;
+evaluating a shared learner that cannot be copied raises.  (The learner state carries the identity
+of its object so that `eval` can tell.) -/
+def CompsP.clean {G S P Row} (cp : CompsP G S P Row) (ts : List Triple) : Comps (Nat × S) P Row :=
+  { envParams := cp.envParams, lrnParams := cp.lrnParams, valParams := cp.valParams,
+    chunkKey := cp.chunkKey, init := fun l => (l, cp.init l), valSeed := cp.valSeed,
+    eval := fun v e ls seed =>
+      if cp.blocked ts ls.1 then (.error .raised, ls)
+      else
+        let r := (cp.evalP cp.σ0 v e ls.2 seed).1
+        (r.1, (ls.1, r.2)) }
+
+def effSeedP {G S P Row} (cp : CompsP G S P Row) (expSeed v : Nat) : Nat := (cp.valSeed v).getD expSeed
+
+/-- one iteration of the `while chunk:` loop in a process with state `st.1` and learner heap `st.2` -/
+def runTaskP {G S P Row} (cp : CompsP G S P Row) (seed : Nat) (st : G × Heap S) : Task → Ev P Row × (G × Heap S)
+  | .env i e => (paramEv (.env i e) (.T1 i) (cp.envParams e), st)
+  | .lrn i l => (paramEv (.lrn i l) (.T2 i) (cp.lrnParams l), st)
+  | .val i v => (paramEv (.val i v) (.T3 i) (cp.valParams v), st)
+  | .eval ei e li l vi v copy =>
+    if copy && !cp.copyable l then
+      -- `lrn = deepcopy(lrn)` raises inside the per-task try: logged, nothing evaluated, nothing touched
+      (.error (.eval ei e li l vi v copy), st)
+    else
+      let r := cp.evalP st.1 v e (st.2 l) (effSeedP cp seed v)
+      let h' := if copy then st.2 else st.2.set l r.1.2
+      (match r.1.1 with
+       | .ok rows => .record (.T4 (ei, li, vi) rows)
+       | .error _ => .error (.eval ei e li l vi v copy), (r.2, h'))
+
+def runSeqP {G S P Row} (cp : CompsP G S P Row) (seed : Nat) :
+    G × Heap S → List Task → List (Ev P Row) × (G × Heap S)
+  | st, [] => ([], st)
+  | st, t :: ts =>
+    let r := runTaskP cp seed st t
+    let rest := runSeqP cp seed r.2 ts
+    (r.1 :: rest.1, rest.2)
+
+/-- one worker lifetime: the chunks it pulls, one after the other; every chunk is unpickled into a
+fresh heap, the process state is carried from chunk to chunk -/
+def runLifeP {G S P Row} (cp : CompsP G S P Row) (seed : Nat) : G → List (List Task) → List (List (Ev P Row)) × G
+  | σ, [] => ([], σ)
+  | σ, ch :: chs =>
+    let r := runSeqP cp seed (σ, cp.init) ch
+    let rest := runLifeP cp seed r.2.1 chs
+    (r.1 :: rest.1, rest.2)
+
+/-- append `x` to the `k`-th list (a new last list when there are not that many) -/
+def putAt {α} : Nat → α → List (List α) → List (List α)
+  | _, x, [] => [[x]]
+  | 0, x, l :: ls => (l ++ [x]) :: ls
+  | k + 1, x, l :: ls => l :: putAt k x ls
+
+/-- which worker pulls which chunk: chunk `i` goes to worker `assign[i]` (0 when absent) -/
+def livesOf {α} (assign : List Nat) (chunks : List α) : List (List α) :=
+  chunks.zipIdx.foldl (fun acc ci => putAt (assign.getD ci.2 0) ci.1 acc) []
+
+/-- `maxchunksperchild`: a worker is retired after `mc` chunks and replaced by a fresh process -/
+def retire {α} (mc : Nat) (lives : List (List α)) : List (List α) := lives.flatMap (maxChunker mc)
+
+structure Sched where
+  assign : List Nat     -- distribution of the chunks over the workers
+  picks  : List Nat     -- interleaving of the emitted records
+
+def chunksOfP {G S P Row} (cp : CompsP G S P Row) (cfg : Cfg) (ts : List Triple) : List (List Task) :=
+  (chunkTasks cfg.mt cp.chunkKey (makeTasks .none ts)).map procOrder
+
+/-- events of a run started in a process whose state is `σ`, and the state / heap of that process
+afterwards.  Workers are freshly started processes (`σ0`), they never see the caller's `σ`. -/
+def runEventsPFrom {G S P Row} (cp : CompsP G S P Row) (cfg : Cfg) (sched : Sched) (seed : Nat) (σ : G)
+    (ts : List Triple) : List (Ev P Row) × (G × Heap S) :=
+  if cfg.multi then
+    let lives := retire cfg.mc (livesOf sched.assign (chunksOfP cp cfg ts))
+    (interleave (lives.flatMap (fun life => (runLifeP cp seed cp.σ0 life).1)) sched.picks, (σ, cp.init))
+  else
+    runSeqP cp seed (σ, cp.init) (chunksOfP cp cfg ts).flatten
+
+def runPFrom {G S P Row} (cp : CompsP G S P Row) (cfg : Cfg) (sched : Sched) (seed : Nat) (σ : G)
+    (ts : List Triple) : Result P Row :=
+  result (Rec.T0 (metaOf seed ts) :: (runEventsPFrom cp cfg sched seed σ ts).1.filterMap Ev.rec?)
+
+/-- a run in a fresh process -/
+def runP {G S P Row} (cp : CompsP G S P Row) (cfg : Cfg) (sched : Sched) (seed : Nat) (ts : List Triple) :
+    Result P Row := runPFrom cp cfg sched seed cp.σ0 ts
+
+def runLogP {G S P Row} (cp : CompsP G S P Row) (cfg : Cfg) (sched : Sched) (seed : Nat) (ts : List Triple) :
+    List Task := (runEventsPFrom cp cfg sched seed cp.σ0 ts).1.filterMap Ev.err?
+
+/-- the process state the caller's process is left in by a run -/
+def stateAfter {G S P Row} (cp : CompsP G S P Row) (cfg : Cfg) (sched : Sched) (seed : Nat) (σ : G)
+    (ts : List Triple) : G := (runEventsPFrom cp cfg sched seed σ ts).2.1
+
+/-- the spec with process state: the σ-free spec of the clean components -/
+def resultSP {G S P Row} (cp : CompsP G S P Row) (seed : Nat) (ts : List Triple) : Result P Row :=
+  resultS (cp.clean ts) seed ts
+
 end Coba.C01
